@@ -73,7 +73,7 @@ def run_check(prop, tier, seed, replay=None, update_baseline=False):
     if not tasks:
         print('property %s: zero verification tasks -- vacuous, refusing to report success' % prop)
         return 3
-    budget = 20000 if tier == 'quick' else 90000
+    budget = 30000 if tier == "quick" else 120000
     nproc = min(16, len(tasks), os.cpu_count() or 4)
     ctx = mp.get_context('spawn')
     out = {}
